@@ -186,7 +186,7 @@ def correspond(ctx):
     replay_witnesses(ctx)
     k = 14
     specs = exhaustive_specs(ctx, ctx.n(2, 4), ctx.n(2, 3))
-    chunks = [{'n_cases': ctx.n(42, 280), 'specs': specs[i::k], 'limit': ctx.n(200, 340)} for i in range(k)]
+    chunks = [{'n_cases': ctx.n(42, 180), 'specs': specs[i::k], 'limit': ctx.n(200, 220)} for i in range(k)]
     par.run_parallel(ctx, 'harness.withitems_stream', 'run_both_chunk', chunks)
 
 
